@@ -48,6 +48,11 @@ EXPECTED_SIZES = {"platonic": 5, "archimedean": 13, "catalan": 13, "johnson": 92
                   "pyramidDipyramid": 6, "science1220869": 145}
 REGULAR = ("platonic", "archimedean", "johnson")   # equal edges + regular faces
 UNITVOL = ("platonic", "archimedean", "catalan")   # textbook counts + unit volume
+PREDICATE = {
+    "platonic": "Tab.platonicOk", "archimedean": "Tab.archimedeanOk", "catalan": "Tab.catalanOk",
+    "johnson": "Tab.johnsonOk", "prismAntiprism": "Tab.plainOk", "pyramidDipyramid": "Tab.plainOk",
+    "science1220869": "Tab.repositoryOk Tables.bySource",
+}
 CHUNK = 24  # entries per generated Lean file (keeps each file's elaboration short)
 
 # Hand-entered, independent of /repo AND of Spec/Textbook.lean (compared with it through the driver):
@@ -158,9 +163,14 @@ def _lean_str(s):
     return json.dumps(s, ensure_ascii=False)
 
 
+def _int_lean(v):
+    # raw constructors + raw literals: nothing to unfold for the kernel
+    return ".ofNat (nat_lit %d)" % v if v >= 0 else ".negSucc (nat_lit %d)" % (-v - 1)
+
+
 def _entry_lean(ident, name, typ, verts, faces, source, ref):
-    vs = ", ".join("⟨%d, %d, %d⟩" % v for v in verts)
-    fs = ", ".join("[" + ", ".join(str(i) for i in f) + "]" for f in faces)
+    vs = ", ".join("⟨%s, %s, %s⟩" % tuple(_int_lean(c) for c in v) for v in verts)
+    fs = ", ".join("[" + ", ".join("nat_lit %d" % i for i in f) + "]" for f in faces)
     return ("def %s : Tab.Entry :=\n  { name := %s, type := %s, source := %s, ref := %s,\n    verts := [%s],\n"
             "    faces := [%s] }\n" % (ident, _lean_str(name), _lean_str(typ), _lean_str(source), _lean_str(ref), vs, fs))
 
@@ -173,6 +183,8 @@ def generate(fams=None):
     sizes = {}
     index_imports = []
     index_defs = []
+    check_imports = []
+    check_thms = []
     for lean_id, fn, _ in TABLES:
         ents = tables[lean_id]
         sizes[lean_id] = len(ents)
@@ -203,6 +215,22 @@ def generate(fams=None):
             files[mod + ".lean"] = "\n".join(body)
             chunk_ids.append("%s_chunk%d" % (lean_id, k))
             index_imports.append("import CoxeterVerif.Generated." + mod)
+            # the kernel-evaluated obligation of this chunk
+            pred = PREDICATE[lean_id]
+            cmod = "Check%s_%d" % (cap, k)
+            files[cmod + ".lean"] = "\n".join([
+                "import CoxeterVerif.Spec.Textbook",
+                "import CoxeterVerif.Generated." + ("Tables" if lean_id == "science1220869" else mod),
+                "/-! GENERATED by harness/c18.py translate() — do not edit.",
+                "    Kernel evaluation of the C18 obligations of one chunk of %s. -/" % fn,
+                "set_option maxRecDepth 1000000", "namespace Tables", "",
+                "theorem %s_chunk%d_ok : %s_chunk%d.all (%s) = true := by decide +kernel" % (lean_id, k, lean_id, k, pred),
+                "", "end Tables", ""])
+            check_imports.append("import CoxeterVerif.Generated." + cmod)
+        check_thms.append(
+            "theorem %s_ok : %s.all (%s) = true := by\n  simp only [%s, List.all_append, %s, Bool.and_self]\n" % (
+                lean_id, lean_id, PREDICATE[lean_id], lean_id,
+                ", ".join("%s_ok" % c for c in chunk_ids)))
         index_defs.append("/-- `%s`, %d entries in file order -/\ndef %s : List Tab.Entry := %s\n" % (
             fn, len(ents), lean_id, " ++ ".join(chunk_ids) if chunk_ids else "[]"))
     # the index: whole tables, the file-name -> table map used by `source`, and the DOI maps
@@ -222,6 +250,11 @@ def generate(fams=None):
         "def doiMaps : Tab.DoiMaps := { toFile := [%s], toFamily := [%s] }" % (to_file, to_fam),
         "", "end Tables", ""]
     files["Tables.lean"] = "\n".join(idx)
+    files["Checks.lean"] = "\n".join(
+        ["import CoxeterVerif.Generated.Tables"] + check_imports + [
+            "/-! GENERATED by harness/c18.py translate() — do not edit.",
+            "    The chunk obligations assembled into one statement per table. -/", "namespace Tables", ""]
+        + check_thms + ["end Tables", ""])
     return files, notes, sizes
 
 
@@ -245,7 +278,7 @@ def translate(ctx):
                 f.write(content)
             changed.append(fn)
     for fn in os.listdir(GEN_DIR):  # stale chunks of a table that shrank
-        if fn.startswith("Tables") and fn.endswith(".lean") and fn not in files:
+        if fn.endswith(".lean") and fn not in files:
             os.unlink(os.path.join(GEN_DIR, fn))
             changed.append(fn)
     digest = _digest(files)
